@@ -34,8 +34,10 @@ ENTRIES = [None, 'e1', 'e2']
 def unsafe(p):
     return p == 'U.xlsx'
 
-def text(p, e):
-    return 'class<' + str(p) + '|' + str(e) + '>'
+CONTENT = [0]       # version of the workbook content currently on disk (under whatever path); set_path may coincide with a changed file
+
+def text(p, e, v=None):
+    return 'class<' + str(p) + '|' + str(e) + '|v' + str(CONTENT[0] if v is None else v) + '>'
 
 def f_raises(p, e, safety):
     return (not p) or (safety and unsafe(p))
@@ -43,6 +45,7 @@ def f_raises(p, e, safety):
 class StubExcel:
     def __init__(self, path):
         self.path = path
+        self.ver = CONTENT[0]            # the content is read at parse time
     @classmethod
     def parse(cls, path):
         return cls(path)
@@ -63,10 +66,10 @@ class StubContext:
 class StubCellTranslator:
     @classmethod
     def translate(cls, cell, excel, context):
-        context.res = text(excel.path, cell)
+        context.res = text(excel.path, cell, excel.ver)
     @classmethod
     def translate_file(cls, excel, context):
-        context.res = text(excel.path, None)
+        context.res = text(excel.path, None, excel.ver)
 
 WRITTEN = {}
 class _F:
@@ -95,7 +98,8 @@ def mk(pi, ei, safety, f1, f2, f3, has_t, tpi, tei):
     p._safety_check = safety
     for k, v in zip(FLAGS, (f1, f2, f3)):
         setattr(p, k, v)
-    p._translation = text(PATHS[tpi], ENTRIES[tei]) if has_t else None
+    p._translation = text(PATHS[tpi], ENTRIES[tei], 0) if has_t else None      # cached text, if any, was made from content version 0
+    CONTENT[0] = 0
     return p
 
 def dirty(p):
@@ -132,11 +136,13 @@ def run(report, tier, seed):
         for pi in range(4):
             _add(f'{name}_p{pi}', sig, __import__('re').sub(r'\bpi\b', str(pi), pre), f'pi = {pi}\n' + __import__('textwrap').dedent(body).strip('\n'), **kw)
     s.add = add_split
-    s.add('step_set_path', st + ', npi: int', SPRE + ' and 0 <= npi < 4', '''
+    s.add('step_set_path', st + ', npi: int, changed: bool', SPRE + ' and 0 <= npi < 4', '''
         p = mk(pi, ei, safety, f1, f2, f3, has_t, tpi, tei)
+        if changed:
+            CONTENT[0] = 1          # the workbook on disk was rewritten before the path is set (again)
         r = p.set_excel_file_path(PATHS[npi])
         return r is p and inv(p) and p._excel_file_path == PATHS[npi] and p._entrypoint_cell == ENTRIES[ei] and p._safety_check == safety
-    ''', encodes=enc)
+    ''', encodes=enc, timeout=240)
     s.add('step_set_entry', st + ', nei: int', SPRE + ' and 0 <= nei < 3', '''
         p = mk(pi, ei, safety, f1, f2, f3, has_t, tpi, tei)
         r = p.set_entrypoint_cell(ENTRIES[nei])
